@@ -357,6 +357,26 @@ class FullCheck(BaseCheck):
     for s in w.servers:
       for bf in s.bad_frames:
         viol('wire:bad-frame', 'server could not decode what the client wrote: %r' % (bf,), {})
+    # -------- C04 at full-stack quiescence: every call has completed and a quiet tail of
+    # 4 T_max has passed, so no request is outstanding anywhere: every node's load must be 0
+    try:
+      from scales.loadbalancer.heap import HeapBalancerSink
+      from vlib.lbworld import attributed_load
+      lb = w.dispatcher.next_sink
+      hops = 0
+      while lb is not None and not isinstance(lb, HeapBalancerSink) and hops < 8:
+        lb = getattr(lb, 'next_sink', None)
+        hops += 1
+      if isinstance(lb, HeapBalancerSink) and all(r['completions'] for r in w.calls if r.get('dispatch_raised') is None):
+        for n in lb._heap[1:]:
+          ob('load:')
+          al = attributed_load(n)
+          if al != 0:
+            viol('load:nonzero-at-quiescence', 'member %s: balancer attributes load %r at quiescence (all %d calls '
+                 'completed, quiet for %.1fs)' % (n.endpoint, al, len(w.calls), 2 * tmax + 1.0),
+                 {'balancer': balancer, 'sign': 'neg' if al < 0 else 'pos'}, {'raw': n.load})
+    except ImportError:
+      pass
     w.close()
     env.advance(0.5)
     ok_errs = ('GreenletExit',)
